@@ -96,3 +96,12 @@ Proof.
   { apply ginv_exec. apply ginv_start. intros t o Ht Ho. pose proof (HG t Ht) as Hf. rewrite forallb_forall in Hf. apply Hf; assumption. }
   apply (g_lg _ _ _ _ _ Hg).
 Qed.
+
+(* the Message registry specification keeps the subscriber list duplicate-free *)
+Lemma msg_step_nodup (s : list N) (o : mop) :
+  NoDup s -> (forall ch, o = MReg ch -> ~ In ch s) ->
+  NoDup (fst (msg_step s o)) /\ (forall l, snd (msg_step s o) = MList l -> NoDup l).
+Proof. intros Hn Hf. destruct o as [ch|ch|]; cbn.
+  - split; [|intros l E; discriminate]. apply NoDup_snoc; [exact Hn|apply Hf; reflexivity].
+  - split; [apply NoDup_filter; exact Hn|intros l E; discriminate].
+  - split; [exact Hn|intros l E; inversion E; subst; exact Hn]. Qed.
